@@ -13,6 +13,11 @@ REPLAYS = os.path.join(VERIF, "replays")
 # Checks run against /repo's working tree; VERIF_REPO lets a developer point the
 # same checks at a scratch worktree (used to try seeded changes and fix patches).
 REPO = os.environ.get("VERIF_REPO", "/repo")
+if os.path.realpath(REPO) != "/repo":
+    # runs against a scratch tree (seeded changes, fix trials) must not overwrite the evidence and
+    # replays of the real tree
+    EVIDENCE = os.path.join("/tmp", "verif-alt", os.path.basename(REPO.rstrip("/")), "evidence")
+    REPLAYS = os.path.join("/tmp", "verif-alt", os.path.basename(REPO.rstrip("/")), "replays")
 
 _tmp_root = None
 
